@@ -119,8 +119,25 @@ def oracle(c, st):
                         return ('C04:closed-collinear' + (':after-retrace' if retraced else ''), 'vertex %d of a closed loop is collinear with its neighbours' % i)
                 for q in v:
                     if abs(dot(n, sub(v[0], q))) > Fr(1, 10 ** 6): return ('C04:closed-nonplanar', 'closed loop is not planar')
-        if cur['closed'] and len(cur['v']) < 3 and cur['o'] == 0:
-            return ('C04:closed-lt3', 'closed loop with %d vertices' % len(cur['v']))
+        if cur['closed'] and len(cur['v']) < 3:
+            return ('C04:closed-lt3', 'the loop is marked closed with %d vertices (outcome class %d)' % (len(cur['v']), cur['o']))
+        if op['k'] == 1 and cur['o'] == 0 and not prev['closed']:
+            # close may only drop the last and/or the first vertex, and only when redundant (collinear with, or
+            # coincident with, its cyclic neighbours in the outline as it stood before the call)
+            pv, cv = prev['v'], cur['v']
+            m = len(pv)
+            def redundant(i):
+                a, b, cc = pv[i - 1], pv[i], pv[(i + 1) % m]
+                if max(abs(x) for x in sub(a, b)) < TOL_COL or max(abs(x) for x in sub(cc, b)) < TOL_COL: return True
+                return len2(cross(sub(b, a), sub(cc, b))) < TOL_COL ** 2 * Fr(101, 100)
+            ok_shapes = []
+            for df in (0, 1):
+                for dl in (0, 1):
+                    if pv[df:m - dl] == cv: ok_shapes.append((df, dl))
+            if not ok_shapes:
+                return ('C04:close-changed-outline', 'close() returned Ok but the vertex list is not the previous one minus first/last vertex')
+            if not any((not df or redundant(0)) and (not dl or redundant(m - 1)) for df, dl in ok_shapes):
+                return ('C04:close-dropped-corner', 'close() dropped a vertex that is a genuine corner of the outline')
         prev = cur
     return None
 
